@@ -903,6 +903,14 @@ class LuaASTEchoWriter(BaseLuaWriter):
                 self._indent -= 1
         if not short_if:
             yield self._get_text(node, b'end')
+        elif not self._args.get('ignore_tokens'):
+            # PICO-8 accepts a short-if "else" with nothing after it. The
+            # parser drops the empty block, but the keyword is still there.
+            yield self._get_code_for_spaces(node)
+            if (self._pos < node.end_pos and
+                    self._tokens[self._pos].matches(lexer.TokKeyword(b'else'))):
+                yield b'else'
+                self._pos += 1
 
     def _walk_StatForStep(self, node):
         yield self._get_text(node, b'for')
